@@ -624,9 +624,40 @@ macro_rules | `(tactic| pres_leaf) => `(tactic| with_reducible apply Pres.unsubs
 macro_rules | `(tactic| pres_leaf) => `(tactic| with_reducible apply Pres.elabInstr)
 macro_rules | `(tactic| pres_leaf) => `(tactic| with_reducible apply Pres.discard)
 
+/-! ### templates without memoised calls, memoised calls: only append nodes -/
+
+theorem Pres.forIn {R : State → State → Prop} [PreOrd R] {α β} {l : List α} {init : β}
+    {f : α → β → M (ForInStep β)} (hf : ∀ a b, Pres R (f a b)) : Pres R (forIn l init f) := by
+  induction l generalizing init with
+  | nil => rw [List.forIn_nil]; exact Pres.pure _
+  | cons a l ih =>
+    rw [List.forIn_cons]
+    refine Pres.bind (hf a init) fun r => ?_
+    cases r with
+    | done b => exact Pres.pure _
+    | yield b => exact ih
+
+macro_rules | `(tactic| pres_leaf) => `(tactic| with_reducible apply Pres.forIn)
+
+theorem Pres.tick : Pres FrameS tick := by unfold Engine.tick; pres
+macro_rules | `(tactic| pres_leaf) => `(tactic| with_reducible apply Pres.tick)
+
+theorem Pres.elabTemplateBase (t lhs init) : Pres Frame (elabTemplateBase t lhs init) := by
+  unfold Engine.elabTemplateBase; pres
+macro_rules | `(tactic| pres_leaf) => `(tactic| with_reducible apply Pres.elabTemplateBase)
+
+theorem Pres.memoCall (env m key) : Pres Frame (memoCall env m key) := by
+  unfold Engine.memoCall; pres
+macro_rules | `(tactic| pres_leaf) => `(tactic| with_reducible apply Pres.memoCall)
+
+theorem Pres.elabInstrM (env loc lhsVal i) : Pres Frame (elabInstrM env loc lhsVal i) := by
+  unfold Engine.elabInstrM; pres
+macro_rules | `(tactic| pres_leaf) => `(tactic| with_reducible apply Pres.elabInstrM)
+
 /-- the API actions that neither stabilise, nor construct nodes, nor create or end an observer,
 nor add an expert edge: var writes and reads, `clone` of an observer handle, `drop` of a var
-handle, (un)subscribe, fault arming, `set_max_height_allowed`, `is_stable`, stats -/
+handle, `drop` of a node handle (`.dropHandle`: touches `handles` only), (un)subscribe, fault arming,
+`set_max_height_allowed`, `is_stable`, stats.  `.dropAll` is not quiet: it clears `alive`. -/
 def Action.isQuiet : Action → Bool
   | .stabilise | .create _ | .observe _ | .disallow _ | .dropObs _ | .addDep .. | .dropAll => false
   | _ => true
@@ -704,6 +735,9 @@ def exEnv : Env where
   body _ _ := { instrs := [], ret := .abs 0 }
   handler _ _ := []
   expertFn _ _ _ := .unit
+  withOldCalls _ _ _ _ := []
+  memo _ := { instrs := [], ret := .abs 0 }
+  perKey _ := { instrs := [], ret := .abs 0 }
 
 /-- a state as left by one stabilisation: var 0 is node 0 (value 5), node 1 is a MapRef over node 0,
 node 2 a constant that was invalidated; observer 0 is in use on node 1, observer 1 freshly created
